@@ -12,14 +12,20 @@
 // (NamedConceptConfiguration::path_for / extract_name_from_file), so whenever one prefix is a
 // proper prefix of the other the shorter one parses the rest of the longer prefix as part of
 // the name.  A repair needs a different on-disk naming scheme; recorded, not repaired.
+// (Dynamic storages are not affected: DynamicStorageConfiguration::path_for_with_type puts a
+// type hash and '_' between prefix and name, which happens to act as a delimiter.)
+
+extern crate iceoryx2_bb_loggers;
 
 use iceoryx2_bb_system_types::file_name::FileName;
 use iceoryx2_bb_container::semantic_string::SemanticString;
-use iceoryx2_cal::dynamic_storage::process_local;
-use iceoryx2_cal::dynamic_storage::{DynamicStorage, DynamicStorageBuilder};
 use iceoryx2_cal::named_concept::*;
+use iceoryx2_cal::static_storage::process_local;
+use iceoryx2_cal::static_storage::{StaticStorage, StaticStorageBuilder};
 
-type Storage = process_local::Storage<u64>;
+// static storage is what services use for their static configuration (the file variant lists a
+// directory; the process-local variant lists its map with the same extract_name_from_path)
+type Storage = process_local::Storage;
 
 fn cfg(prefix: &[u8]) -> <Storage as NamedConceptMgmt>::Configuration {
     <Storage as NamedConceptMgmt>::Configuration::default()
@@ -32,17 +38,18 @@ fn shorter_prefix_lists_the_resources_of_the_longer_prefix() {
     let long = cfg(b"a_b");
     let short = cfg(b"a_");
     let name = FileName::new(b"thing").unwrap();
-    let _storage = <Storage as DynamicStorage<u64>>::Builder::new(&name)
+    let _storage = <Storage as StaticStorage>::Builder::new(&name)
         .config(&long)
-        .create(7)
+        .create(b"content of the a_b domain")
         .unwrap();
 
     assert_eq!(Storage::list_cfg(&long).unwrap(), vec![name]);
     // property: a domain with a different prefix never sees this resource
-    assert_eq!(
-        Storage::list_cfg(&short).unwrap(),
-        vec![],
-        "the domain with prefix 'a_' lists a resource of the domain with prefix 'a_b'"
+    let seen: Vec<FileName> = Storage::list_cfg(&short).unwrap();
+    assert!(
+        seen.is_empty(),
+        "the domain with prefix 'a_' lists a resource of the domain with prefix 'a_b': {:?}",
+        seen
     );
 }
 
@@ -51,9 +58,9 @@ fn shorter_prefix_finds_the_resources_of_the_longer_prefix_under_another_name() 
     let long = cfg(b"a_b");
     let short = cfg(b"a_");
     let name = FileName::new(b"other").unwrap();
-    let _storage = <Storage as DynamicStorage<u64>>::Builder::new(&name)
+    let _storage = <Storage as StaticStorage>::Builder::new(&name)
         .config(&long)
-        .create(7)
+        .create(b"content of the a_b domain")
         .unwrap();
 
     let alias = FileName::new(b"bother").unwrap();
